@@ -25,7 +25,7 @@ COMPRESSION = {"STORED": zipfile.ZIP_STORED, "DEFLATED": zipfile.ZIP_DEFLATED,
 
 CUSTOM_KEY_MAP = {"data_id": "i", "str": "s", "kind": "k", "type": "t", "name": "n",
                   "age": "a", "guid": "g"}
-CUSTOM_VALUE_MAP = {"type": ["int", "tup", "person", "obj", "wrap", "udict"]}
+CUSTOM_VALUE_MAP = {"type": ["int", "tup", "person", "obj", "wrap", "udict", "float"]}
 
 IDENTITY_HASHED = ("w", "o", "f")
 
@@ -122,6 +122,8 @@ def _pool_key_for(obj):
         return "s:" + obj
     if f == "i":
         return f"i:{obj}"
+    if f == "x":
+        return f"x:{int(obj)}"
     if f == "w":
         return f"w:{obj._dict['val']}"
     if f == "o":
@@ -170,8 +172,13 @@ def _effective_maps(w: World, flavour: str, cls, key_map_opt, value_map_opt, kin
         kw["value_map"] = False
         exp_v = {}
     else:
-        kw["value_map"] = {k: list(v) for k, v in CUSTOM_VALUE_MAP.items()}
-        exp_v = {k: list(v) for k, v in CUSTOM_VALUE_MAP.items()}
+        vm = {k: list(v) for k, v in CUSTOM_VALUE_MAP.items()}
+        if value_map_opt == "custom_dup":
+            # a caller's list that mentions a value twice (collected without removing
+            # duplicates): still a valid map, every written index must name the value
+            vm["type"] = ["int", "tup", "int", "person", "obj", "tup", "wrap", "udict", "float"]
+        kw["value_map"] = {k: list(v) for k, v in vm.items()}
+        exp_v = {k: list(v) for k, v in vm.items()}
         if typed:
             exp_v.setdefault("kind", kinds)
     return kw, exp_k, exp_v
@@ -430,7 +437,12 @@ def plan_restart(w: World, op: dict) -> Plan:
         w.slots[si].real = None
         load_cls = cls
         w.deser_cache = {}  # class level mappers intern per load as well
-        file_meta = {}
+        # a caller may hand the same dict to several load() calls: what an earlier
+        # file left in it must not influence how this file is decoded
+        if op.get("reuse_file_meta"):
+            file_meta = w.__dict__.setdefault("shared_file_meta", {})
+        else:
+            file_meta = {}
         lkw = {"file_meta": file_meta}
         if op.get("auto_uncompress"):
             lkw["auto_uncompress"] = True  # the default, spelled out
@@ -623,6 +635,9 @@ def _plan_restart_dict(w: World, op, si, mt, rt) -> Plan:
         old_groups = _partition(mt)
         w.unbind_slot(si)
         w.slots[si].real = None
+        import copy
+
+        pristine = copy.deepcopy(obj)
         try:
             if use_mapper:
                 loaded = w.nt.Tree.from_dict(obj, mapper=_interning_deser(w, {}))
@@ -630,6 +645,11 @@ def _plan_restart_dict(w: World, op, si, mt, rt) -> Plan:
                 loaded = w.nt.Tree.from_dict(obj)
         except Exception as e:  # noqa: BLE001
             fail("from_dict-raised", f"from_dict() raised {type(e).__name__}: {e}")
+        # the structure belongs to the caller (who may dump it or build from it again);
+        # the simulator's mapper does not touch it, so any change is from_dict()'s
+        if obj != pristine:
+            fail("input-changed", "from_dict() modified the structure it was given "
+                                  "(a second build from it would differ)")
         _adopt_loaded(w, si, loaded, mt, op, "C14", trigger, old_groups, plain_result=True)
 
     return Plan(OK, call=call, apply=None, owner="C14", trigger=trigger, after=after,
